@@ -49,19 +49,31 @@ def _same(snap, where):
     return True
 
 
+def _slots_clean(where):
+    """C16 (i): after a (de)serialization call the two process-global option slots are empty again"""
+    from pyoak.serialize import DataClassSerializeMixin as M
+
+    RESULT["slot_checks"] = RESULT.get("slot_checks", 0) + 1
+    so, md = M._DataClassSerializeMixin__serialization_options, M._DataClassSerializeMixin__mashumaro_dialect
+    if (so != {} or md is not None) and len(RESULT["violations"]) < 20:
+        RESULT["violations"].append({"what": f"{where}: serialization options / dialect still set after the call returned: {so!r} {md!r}", "test": os.environ.get("PYTEST_CURRENT_TEST", ""), "kind": "slots"})
+    return True
+
+
 def _wrap(fn, where, first_arg):
+    ser = where in ("as_dict", "as_obj")
     if first_arg == "self":
         def cap(self):
             return _take()
 
         def cond(self, OLD):
-            return _same(OLD.frame, where)
+            return _same(OLD.frame, where) and (not ser or _slots_clean(where))
     else:
         def cap(cls):
             return _take()
 
         def cond(cls, OLD):
-            return _same(OLD.frame, where)
+            return _same(OLD.frame, where) and (not ser or _slots_clean(where))
 
     return icontract.snapshot(cap, name="frame")(icontract.ensure(cond, error=FrameBroken)(fn))
 
